@@ -7,6 +7,8 @@ Statuses range over every int32 code and all message / cause byte strings.
 -/
 import Teleport.Lemmas.Dispatch
 import Teleport.Lemmas.Raw
+import Teleport.Gen.Consts
+import Teleport.Lemmas.WsSubProto
 namespace Teleport
 namespace C04
 open Dispatch
@@ -378,6 +380,129 @@ example : callerObs exFail = .done ⟨-2147483648, [37, 0, 255], some []⟩ fals
 example : callerObs exNoRoute = .done stNotFound false :=
   C04_exact exNoRoute ⟨rfl, rfl, rfl, rfl, rfl, rfl⟩ rfl _ (by decide) (by decide)
     (C04_rule_not_found exNoRoute ⟨rfl, rfl, rfl, rfl, rfl, rfl⟩ rfl (by decide) (by decide)).1
+
+
+/-! ### tie A — framework status codes, texts and sentinels (fact group `Consts`) -/
+
+/-- ASCII text of a regenerated constant as bytes. -/
+def constBytes (s : String) : Bytes := s.toList.map (fun c => c.toNat.toUInt8)
+
+/-- the predefined status `name` as status.go / session.go declare it now (arguments evaluated). -/
+def genSentinel (name : String) : Option Status :=
+  (Gen.consts_sentinels.find? (·.1 == name)).map fun r =>
+    ⟨r.2.1, constBytes r.2.2.1, if r.2.2.2 == "!nil" then none else some (constBytes r.2.2.2)⟩
+
+/-- `<sentinel>.Copy(cause)` of the regenerated sentinel. -/
+def genCopy (name : String) (cause : Bytes) : Option Status :=
+  (genSentinel name).map fun s => { s with cause := some cause }
+
+def genCode (name : String) : Option Int := Gen.consts_codes.lookup name
+
+/-- probe configuration: one CALL route `/c`, json registered. -/
+def kCfg : Cfg := { calls := [[47, 99]], codecs := [106] }
+def kFrame (t : UInt8) (m : Bytes) : Frame := { mtype := t, seq := 7, method := m, codec := 106, bodyEmpty := false }
+
+/-- **C04 tie A, framework rule statuses**: every status the dispatch model produces by a framework rule
+    is the predefined status of status.go with the code, text (`CodeText` EXECUTED on the code) and cause
+    the source declares now — obtained by RUNNING the model: unknown route → `statNotFound`; message type
+    outside CALL/REPLY/PUSH → `statCodeMtypeNotAllowed`, and that code is the one `handle` closes the
+    session on; empty service method → `statBadMessage.Copy("invalid service method for message")` (the
+    text of the `Copy` call in bindCall and bindPush); undecodable body → `statBadMessage.Copy(err)`;
+    handler panic → `statInternalServerError.Copy(p)`; failed write → `statWriteFailed.Copy(e)` then
+    `statInternalServerError.Copy(e)`; closed session → `statConnClosed`. Every sentinel's text is
+    `CodeText` of its code. Changing `CodeNotFound`'s value or text breaks this. -/
+theorem C04_consts_dispatch_statuses :
+    Gen.consts_missing = [] ∧
+    some (binding kCfg (kFrame tCall [47, 122]) {}).stat = genSentinel "statNotFound" ∧
+    some (binding kCfg (kFrame 9 [47, 99]) {}).stat = genSentinel "statCodeMtypeNotAllowed" ∧
+    (genSentinel "statCodeMtypeNotAllowed").map
+      (fun s => (handle kCfg (kFrame tCall [47, 99]) (binding kCfg (kFrame tCall [47, 99]) {}) s
+        (.ret Status.zero {} false) {} .sent .sent).closeRequested) = some true ∧
+    (genSentinel "statNotFound").map
+      (fun s => (handle kCfg (kFrame tCall [47, 99]) (binding kCfg (kFrame tCall [47, 99]) {}) s
+        (.ret Status.zero {} false) {} .sent .sent).closeRequested) = some false ∧
+    Gen.consts_copy_texts.filter (fun r => r.2.1 == "statBadMessage") =
+      [("handlerCtx.bindCall", "statBadMessage", "invalid service method for message"),
+       ("handlerCtx.bindPush", "statBadMessage", "invalid service method for message")] ∧
+    some (binding kCfg (kFrame tCall []) {}).stat =
+      genCopy "statBadMessage" (constBytes "invalid service method for message") ∧
+    some (statAfterRead kCfg { dec := some [1, 2] } (kFrame tCall [47, 99]) {}) = genCopy "statBadMessage" [1, 2] ∧
+    some (handleCall kCfg (kFrame tCall [47, 99]) Status.zero (.panic [3] false) {} .sent .sent).stat =
+      genCopy "statInternalServerError" [3] ∧
+    some (handleCall kCfg (kFrame tCall [47, 99]) Status.zero (.ret Status.zero {} false) {} (.failed [4] false) .sent).stat =
+      genCopy "statWriteFailed" [4] ∧
+    (handleCall kCfg (kFrame tCall [47, 99]) Status.zero (.ret Status.zero {} false) {} (.failed [4] false) .sent).replies.map
+      (fun r => some r.status) = [genCopy "statInternalServerError" [4]] ∧
+    some (handleCall kCfg (kFrame tCall [47, 99]) Status.zero (.ret Status.zero {} false) {} .connClosed .sent).stat =
+      genSentinel "statConnClosed" ∧
+    some (connClosedWith none) = genSentinel "statConnClosed" ∧
+    some (connClosedWith (some [5])) = genCopy "statConnClosed" [5] ∧
+    (Gen.consts_sentinels.all fun r =>
+      Gen.consts_code_text.lookup r.2.1 == some r.2.2.1 &&
+      Gen.consts_codes.any (fun c => c.2 == r.2.1)) = true ∧
+    (genCode "CodeOK", genCode "CodeNoError") = (some 0, some 0) ∧
+    Gen.consts_code_text.lookup 0 = some "" := by
+  decide +kernel
+
+/-- **C04 tie A, codec constants the dispatch model uses**: the text of the unsupported-codec error is
+    `codec.Get`'s format with the id in decimal; `codec.NilCodecID` is the id for which the read loop is
+    left on a read error (`leaves`), a registered id is not. -/
+theorem C04_consts_codec_texts :
+    Gen.consts_missing = [] ∧
+    constBytes Gen.consts_codec_unsupported = txtUnsupportedCodec ++ constBytes "%d" ∧
+    unsupportedCodec 7 = txtUnsupportedCodec ++ constBytes "7" ∧
+    leaves { calls := [[47, 99]], codecs := [106] } { dec := some [1] }
+      { mtype := tCall, seq := 1, method := [47, 99], codec := Gen.consts_nil_codec_id.toUInt8, bodyEmpty := false } {} = true ∧
+    leaves { calls := [[47, 99]], codecs := [106] } { dec := some [1] }
+      { mtype := tCall, seq := 1, method := [47, 99], codec := 106, bodyEmpty := false } {} = false ∧
+    (Gen.consts_codecs.all fun c => c.2.1 != Gen.consts_nil_codec_id) = true := by
+  decide +kernel
+
+
+-- BEGIN websocket sub-protocols
+/-! ### the websocket sub-protocols, byte level (Model/WsSubProto)
+
+`transport .wsJson` / `transport .wsPb` above assume what the container does with the status; the
+two theorems below prove it from the byte-level model of `jsonSubProto` / `pbSubProto` `Pack` and
+`Unpack` (which the correspondence check compares with the real code). -/
+
+/-- jsonSubProto, byte level: the REPLY document packed by the server and unpacked by the caller
+    has the same status, seq and type (supported field set `WFj`, any lawful pipe) — exactly what
+    `transport .wsJson` says (the status is carried since fix d2190d3). -/
+theorem C04_wsjson_status_carried (reg : Registry) (limit : Nat) (m : Msg) (bs : Bytes) (sz : Nat)
+    (hw : JsonP.WFj m) (hl : ∀ i ∈ m.pipe, ∃ f, reg i = some f ∧ Xfer.Lawful f)
+    (hp : WsP.packJson reg limit m = .ok (bs, sz)) (hlt : bs.length < 4294967296) :
+    ∃ m', WsP.unpackJson reg limit bs = .ok m' ∧ m'.status = m.status ∧ m'.seq = m.seq ∧ m'.mtype = m.mtype ∧
+      transport .wsJson m.status = some m'.status := by
+  refine ⟨{ m with size := sz }, (WsP.unpackJson_packJson reg limit m bs sz hw hl hp hlt).1, rfl, rfl, rfl, ?_⟩
+  exact C04_transport_exact .wsJson m.status rfl hw.2.1
+
+/-- pbSubProto, byte level (known finding c04:ws-subproto-drops-status:pb): for EVERY protobuf
+    serializer whose decoder inverts its encoder and every message of `WFwp`, the REPLY document
+    is delivered with seq and type intact and the ZERO status, whatever status the handler
+    produced — exactly what `transport .wsPb` says; a failing handler is seen as OK. -/
+theorem C04_wspb_status_dropped_witness (ser : WsP.PRec → Option Bytes) (de : Bytes → Except String WsP.PRec)
+    (hsd : ∀ r t, ser r = some t → de t = .ok r)
+    (reg : Registry) (limit : Nat) (m : Msg) (bs : Bytes) (sz : Nat)
+    (hw : WsP.WFwp m) (hl : ∀ i ∈ m.pipe, ∃ f, reg i = some f ∧ Xfer.Lawful f)
+    (hp : WsP.packPb ser reg limit m = .ok (bs, sz)) (hlt : bs.length < 4294967296) :
+    ∃ m', WsP.unpackPb de reg limit bs = .ok m' ∧ m'.status = Status.zero ∧ m'.status.ok = true ∧
+      m'.seq = m.seq ∧ m'.mtype = m.mtype ∧ transport .wsPb m.status = some m'.status :=
+  ⟨{ m with status := Status.zero, size := sz }, (WsP.unpackPb_packPb ser de hsd reg limit m bs sz hw hl hp hlt).1,
+    rfl, (by decide : Status.zero.ok = true), rfl, rfl, rfl⟩
+
+/-- non-vacuity: a 404 REPLY meets `WFj` and `WFwp`, and jsonSubProto packs it. -/
+def exReplyW : Msg :=
+  { seq := 7, mtype := 2, method := [], status := stNotFound, md := [], codec := 0, body := [], pipe := [] }
+example : JsonP.WFj exReplyW := by decide
+example : WsP.WFwp exReplyW := by decide
+example : (match WsP.packJson (fun _ => none) 65536 exReplyW with | .ok (bs, sz) => sz == bs.length && decide (sz > 90) | _ => false) = true := by
+  decide +kernel
+example : (match WsP.packPb (WsP.toySer (WsP.toPRec exReplyW [])) (fun _ => none) 65536 exReplyW with
+    | .ok (bs, _) => (WsP.unpackPb (WsP.toyDe (WsP.toPRec exReplyW [])) (fun _ => none) 65536 bs).msg?.map (·.status) == some Status.zero
+    | _ => false) = true := by
+  decide +kernel
+-- END websocket sub-protocols
 
 end C04
 end Teleport
